@@ -40,6 +40,8 @@ CONFIG = dict(
          "(alone or with several entries due in the same scan, callback and nil-callback ones mixed); replies ok / empty / error / undecodable to pending, completed (late, duplicate), "
          "notify and unknown instances; raw responses for id 0, small, MaxReqId, MaxInt32 and pending ids; clock advances aimed at deadline-1000..deadline+2000 including deadline-1, deadline, "
          "deadline+1 and the scan instants, long advances; allocator preset near MaxReqId (wrap) and at random values; node-level app.Request without a route. "
+         "A `crowd` stream spawns 3-24 services from one props (one scheDisp / run-service goroutine), parks that goroutine inside a posted closure, lets one foreign goroutine per service "
+         "deliver a reply (more than the 9-slot dispatcher queue holds), releases it and checks that every reply callback, timer callback and posted closure ran on the one goroutine, never two at once. "
          "The order in which one scan runs several timeout callbacks (Go map order), and which nil-callback entries it had already removed before each of them, "
          "is recorded and fed to the model as its choice. "
          "A case is non-trivial when something was issued, called back or sent; distinct = distinct (op, observation) pairs",
